@@ -1017,7 +1017,7 @@ def gen_queries(rng, spec, n):
                                  "stop_kind": "date", "step_given": "pos", "step_omitted": False, "backward": False,
                                  "expected": [s0, s0 + step, s0 + 2 * step]}))
             continue
-        span = 2 * 3600 * US if not numerical else 40 * 60 * US
+        span = 2 * 3600 * US if not numerical else 15 * 60 * US
         u = epoch + rng.randrange(-span, span)
         if rng.random() < 0.1:
             u = epoch
@@ -1183,7 +1183,7 @@ def history_case(ctx, job, idx, rng, st):
 
     if scen == "shuffle":
         obj = fresh()
-        for rep in range(3):
+        for rep in range(2 if numerical else 3):
             order = list(range(len(qs))) + [rng.randrange(len(qs)) for _ in range(2)]  # repetitions: number of earlier calls
             rng.shuffle(order)
             for j in order:
